@@ -494,6 +494,11 @@ def run_redrill(unit):
     L, T = (N, 1) if N <= 4 else (N // 2, 2)
     cfg = {'harness': 'redrilling', 'N': N, 'L': L, 'T': T}
     ramey = bool(unit.get('ramey'))
+    through_model = bool(unit.get('through_model'))
+    if through_model:
+        cfg['entered through'] = ('the real Model.Calculate of a district-heating run (reservoir -> wellbores -> surface plant, twice): the reservoir step '
+                                  'recomputes its history, the surface plant step is a stub that changes the utilisation factor (the second wellbore pass '
+                                  'gets other Ramey drops), economics is a no-op')
     if ramey:
         # time-varying wellbore temperature drop (Ramey's model switched on): RameyCalc is a stub returning one arbitrary drop per time step
         cfg['wellbore temperature drop'] = 'time series (Ramey model on; RameyCalc -> arbitrary per-step drops in [0, 50])'
@@ -523,22 +528,46 @@ def run_redrill(unit):
              (WB, 'InjPressureDropsAndPumpingPowerUsingImpedenceModel', inj_imp),
              (WB, 'ProdPressureDropAndPumpingPowerUsingIndexes', prod_idx),
              (WB, 'InjPressureDropAndPumpingPowerUsingIndexes', inj_idx)]
-    names = [f'Tres[{i}]' for i in range(N)] + ['maxdrawdown', 'tempdrop'] + ([f'drop[{i}]' for i in range(N)] if ramey else [])
+    names = [f'Tres[{i}]' for i in range(N)] + ['maxdrawdown', 'tempdrop'] + ([f'drop[{i}]' for i in range(N)] if ramey else []) \
+        + ([f'drop1[{i}]' for i in range(N)] if through_model else [])
 
     def drive(v, symbolic):
         m = base_model(4, 1, L, T)
         m.reserv.Calculate(m)   # concrete reservoir (time vector, Trock, pressures)
         Tres = [v[f'Tres[{i}]'] for i in range(N)]
-        m.reserv.Tresoutput.value = core.as_symarray(Tres) if symbolic else np.array(Tres, dtype=float)
+        mk = (lambda xs: core.as_symarray(list(xs))) if symbolic else (lambda xs: np.array(xs, dtype=float))
+        m.reserv.Tresoutput.value = mk(Tres)
         m.wellbores.maxdrawdown.value = v['maxdrawdown']
         m.wellbores.tempdropprod.value = v['tempdrop']
         m.wellbores.rameyoptionprod.value = ramey
         binds = stubs + ([(WB, 'np', NPW)] if symbolic else [])
         if ramey:
             drops = [v[f'drop[{i}]'] for i in range(N)]
-            binds = binds + [(WB, 'RameyCalc', lambda *a, **k: (core.as_symarray(list(drops)) if symbolic else np.array(drops, dtype=float)))]
+            calls = {'n': 0}
+
+            def ramey_stub(*a, **k):
+                calls['n'] += 1
+                if through_model and calls['n'] == 1:
+                    return mk([v[f'drop1[{i}]'] for i in range(N)])      # first pass: the drops for the utilisation factor as given
+                return mk(drops)                                         # (last pass:) the drops the reported profile is stated with
+            binds = binds + [(WB, 'RameyCalc', ramey_stub)]
         with shim.shadow(*binds):
-            m.wellbores.Calculate(m)
+            if through_model:
+                from geophires_x.OptionList import PlantType
+                m.surfaceplant.plant_type.value = PlantType.DISTRICT_HEATING
+                # environment: a deterministic reservoir step recomputes the same history from scratch; the surface plant and economics steps do
+                # not touch the wellbore / reservoir series
+                m.reserv.Calculate = lambda model: setattr(m.reserv.Tresoutput, 'value', mk(Tres))
+                m.surfaceplant.Calculate = lambda model: None
+                m.economics.Calculate = lambda model: None
+                try:
+                    type(m).Calculate(m)
+                finally:
+                    for comp in (m.reserv, m.surfaceplant, m.economics):
+                        comp.__dict__.pop('Calculate', None)
+                    m.surfaceplant.plant_type.value = PlantType.INDUSTRIAL
+            else:
+                m.wellbores.Calculate(m)
         return m, Tres
 
     def obligations(v, m, Tres0):
@@ -580,6 +609,8 @@ def run_redrill(unit):
         v['tempdrop'] = sym('tempdrop', 0, 50)
         for i in range(N if ramey else 0):
             v[f'drop[{i}]'] = sym(f'drop[{i}]', 0, 50)
+        for i in range(N if through_model else 0):
+            v[f'drop1[{i}]'] = sym(f'drop1[{i}]', 0, 50)
         core.ctx().add_assume(v['Tres[0]'].t - (v['drop[0]'] if ramey else v['tempdrop']).t > 0)   # a positive initial production temperature
         m, Tres0 = drive(v, True)
         return v, obligations(v, m, Tres0)
@@ -622,6 +653,8 @@ def units(tier, seed):
         us.append({'harness': 'redrilling', 'N': N})
     for N in META['bounds'][tier]['redrilling series length N'][:2 if tier == 'quick' else 3]:
         us.append({'harness': 'redrilling', 'N': N, 'ramey': True})
+    for N in ((3,) if tier == 'quick' else (2, 3, 4)):
+        us.append({'harness': 'redrilling', 'N': N, 'ramey': True, 'through_model': True})
     return us
 
 
